@@ -159,7 +159,9 @@ def dt_sig(ev, clauses):
 
 
 def real_sig(ev, clauses):
-    return "real:%s:%s:%s" % ("+".join(clauses), ev["t"], ev["cls"])
+    return "real:%s:%s:%s%s" % ("+".join(clauses), ev["t"], ev["cls"],
+                                ":keybinding" if ev["route"] == "keybinding"
+                                else "")
 
 
 SIG = {"store": store_sig, "dt": dt_sig, "real": real_sig}
